@@ -20,6 +20,8 @@ BODIES = [
     ("nested class", ["class C:", "    v = 4", "    def m(self, a):", "        return a + self.v", "return C().m(x) + k"]),
     ("comprehension", ["t = sum([i * k for i in range(3)])", "return t + x"]),
     ("multi-line expression", ["return (x +", "        k *", "    2)"]),
+    ("nested def with a local decorator", ["def scaled(fn):", "    return lambda a: fn(a) * k", "@scaled", "def g(a):", "    return a + 1", "return g(x) + 2"]),
+    ("nested class with decorated methods", ["class C:", "    @staticmethod", "    def s(a):", "        return a * 2", "    @property", "    def p(self):", "        return k", "return C.s(x) + C().p"]),
     ("if/else with string literal", ["s = 'def not_a_def(): # \"\"\"'", "if len(s) > 3:", "    return x + k", "return 0"]),
 ]
 ONELINE = "one-line body"
@@ -266,7 +268,7 @@ QUERIES = [
           partitions=_parts_def,
           natives=[dict(x=3, k=4, indent=i, deco=d, doc=dc, comment=cm, params=p, body=b, edit=e) for (i, d, dc, cm, p, b, e) in
                    ((0, 0, 0, 0, 0, 0, 0), (1, 1, 1, 1, 1, 1, 1), (2, 2, 2, 2, 2, 2, 2), (1, 2, 3, 3, 0, 3, 1), (0, 1, 3, 0, 1, 4, 2), (2, 0, 1, 3, 2, 5, 0),
-                    (0, 0, 0, 0, 0, NB, 0), (1, 1, 0, 1, 0, NB, 1), (0, 0, 2, 0, 0, 6, 2), (0, 2, 0, 0, 0, 6, 1))],
+                    (0, 0, 0, 0, 0, NB, 0), (1, 1, 0, 1, 0, NB, 1), (0, 0, 2, 0, 0, 6, 2), (0, 2, 0, 0, 0, 6, 1), (0, 0, 0, 0, 0, 7, 1), (1, 1, 1, 0, 0, 7, 2), (0, 0, 0, 0, 0, 8, 0), (2, 2, 0, 1, 0, 8, 1))],
           bounds=lambda tier: {"indent": INDENTS, "decorators": [0, 1, "2 (second one spanning two lines)"], "docstrings": ["none", "one line", "ending in an escaped quote", "multi-line"],
                                "comments": COMMENTS, "parameters": [p[0] for p in PARAMS], "bodies": [b[0] for b in BODIES] + [ONELINE], "edits": ["none", "rename", "replace doc"],
                                "argument": "x and the global k: unbounded symbolic ints", "combination": "products listed per partition (quick) / full product (thorough)"},
